@@ -30,7 +30,9 @@ VALS = [None, True, False, 0, 1, 2, 3, -1, 10, 11, 12, 13, 14, 15,          # 0.
         0.5, 1.5, 2.0, -1.0, float("nan"),                                     # 14..18
         "a", "b", "c", "", "B", "d", "e",                                      # 19..25
         D(2020, 1, 1), D(2021, 6, 1), DT(2020, 1, 1, 0, 0), b"a", (1, 2), 1 + 2j,    # 26..31
-        DT(2020, 1, 1, 5, 30)]                                                     # 32
+        DT(2020, 1, 1, 5, 30),                                                     # 32
+        # ints and floats that are equal only after rounding (Python compares int with float exactly), an int beyond float range
+        2.0 ** 53, 2 ** 53 + 1, 2 ** 53, 1e16, 10 ** 16 + 1, 10 ** 400, float("inf"), -0.0]   # 33..40
 IX = {"int": [8, 9, 10, 11, 12, 13], "intn": [8, 0, 10, 0, 12, 13], "str": [19, 20, 21, 24, 25, 23],
       "strn": [0, 19, 0, 21, 24, 25], "float": [14, 15, 16, 17, 14, 15], "dup": [4, 4, 5, 4, 5, 5],
       "bool": [1, 2, 1, 1, 2, 2], "obj": [4, 19, 15, 0, 30, 29], "date": [26, 27, 26, 0, 27, 26], "none": [0, 0, 0, 0, 0, 0]}
@@ -232,7 +234,7 @@ def _generate(rng, tier):
             key = {"t": "int", "i": rng.randint(-n - 2, n + 2)}
         yield dict(v, fam="vget", key=key)
     # ---- comparisons: all ordered pairs of scalars, every operator and operand form
-    scal = [0, 1, 2, 4, 5, 15, 16, 18, 19, 20, 26, 27]
+    scal = [0, 1, 2, 4, 5, 15, 16, 18, 19, 20, 26, 27, 33, 34, 35, 36, 37, 38, 39, 40]
     for op in OPS:
         for x in scal:
             for y in scal:
@@ -254,7 +256,8 @@ def _generate(rng, tier):
     for n in range(0, 5):
         for xs in itertools.product([1, 2, 0], repeat=n):
             yield {"fam": "cmp", "op": "not", "xs": list(xs), "other": {"t": "scalar", "ys": [1]}, "xdtype": "bool" if n == 0 else None}
-    kinds = [[0], [1, 2], [3, 4, 5, 7], [14, 15, 16], [19, 20, 23], [26, 27], [4, 19, 0, 15]]
+    kinds = [[0], [1, 2], [3, 4, 5, 7], [14, 15, 16], [19, 20, 23], [26, 27], [4, 19, 0, 15], [33, 34, 35, 36, 37], [33, 36, 39, 40, 3],
+             [34, 37, 38, 35]]
     for it_ in range(15000 if not thorough else 120000):
         n = rng.randint(0, 5) if it_ % 60 else rng.choice([33, 64, 129, 257, 300])
         ka, kb = rng.choice(kinds), rng.choice(kinds)
